@@ -475,11 +475,17 @@ def copyInstr (P : NumPr) (st : MSt) (ins : Instr) (next : Option Kind := none) 
     | none => (st, [])
     | some di => groupLoop P ins.k ins.rel (n == di) next st true (chunks di n ins.cs)
 
+/-- kind of the command that follows: the next instruction, or `final` after the last one -/
+def nextKind (r : List Instr) (final : Option Kind) : Option Kind :=
+  match r with
+  | j :: _ => some j.k
+  | [] => final
+
 /-- `final` = command following the last instruction (`none` at the end of the input) -/
 def runInstrs (P : NumPr) (final : Option Kind) : MSt → List Instr → MSt × List OutGroup
   | st, [] => (st, [])
   | st, i :: r =>
-    let a := copyInstr P st i (match r with | j :: _ => some j.k | [] => final)
+    let a := copyInstr P st i (nextKind r final)
     let b := runInstrs P final a.1 r
     (b.1, a.2 ++ b.2)
 
